@@ -21,6 +21,7 @@ class Gen:
         # C17: whether a name declared in one branch of an `if` is bound afterwards depends on the path
         # taken; a static freezer cannot know, so such programs are not generated there
         self.branch_scoped = False
+        self.use_eval = True
 
     # ---------------------------------------------------------------- scopes
     def fresh(self, prefix="v"):
@@ -224,6 +225,13 @@ class Gen:
         return g.lam(ps, body), ("fn%d" % arity if not splat else "fnv")
 
     def stmt(self):
+        out = self.stmt0()
+        # now and then a statement goes through eval of its own source text (same scope, same exits)
+        if self.use_eval and self.rng.random() < 0.06:
+            out = [g.evl(s) for s in out]
+        return out
+
+    def stmt0(self):
         if not self.spend():
             return [g.call(I("print"), [L(0)])]
         r = self.rng.random()
